@@ -65,7 +65,7 @@ sim::Json GenOpts::to_json() const {
     j["allow_msw"] = allow_msw; j["allow_history"] = allow_history; j["allow_groups"] = allow_groups;
     j["restart_safe_conditions"] = restart_safe_conditions; j["nonmidnight"] = nonmidnight; j["step_events"] = step_events;
     j["action_inline_safe"] = action_inline_safe; j["vector_target"] = vector_target; j["units"] = units;
-    j["fmtout"] = fmtout; j["unifout"] = unifout; j["esmry"] = esmry; j["rptonly"] = rptonly; j["sumthin"] = sumthin; j["date_conditions"] = date_conditions; j["nested_parens"] = nested_parens; j["stop_safe"] = stop_safe; j["weltarg_safe"] = weltarg_safe; j["cond_well_bias"] = cond_well_bias; j["min_wells"] = min_wells; j["reparent_groups"] = reparent_groups; j["late_edits"] = late_edits; j["geo_kws"] = geo_kws;
+    j["fmtout"] = fmtout; j["unifout"] = unifout; j["esmry"] = esmry; j["rptonly"] = rptonly; j["sumthin"] = sumthin; j["date_conditions"] = date_conditions; j["nested_parens"] = nested_parens; j["stop_safe"] = stop_safe; j["weltarg_safe"] = weltarg_safe; j["cond_well_bias"] = cond_well_bias; j["min_wells"] = min_wells; j["reparent_groups"] = reparent_groups; j["late_edits"] = late_edits; j["geo_kws"] = geo_kws; j["udq_unary_minus"] = udq_unary_minus;
     return j;
 }
 GenOpts GenOpts::from_json(const Json& j) {
@@ -77,7 +77,7 @@ GenOpts GenOpts::from_json(const Json& j) {
     o.step_events = j.getb("step_events", o.step_events); o.action_inline_safe = j.getb("action_inline_safe", o.action_inline_safe);
     o.vector_target = static_cast<int>(j.geti("vector_target", 0)); o.units = j.gets("units", "");
     o.fmtout = static_cast<int>(j.geti("fmtout", -1)); o.unifout = static_cast<int>(j.geti("unifout", -1)); o.esmry = j.getb("esmry", false);
-    o.rptonly = j.getb("rptonly", false); o.sumthin = j.getb("sumthin", false); o.date_conditions = j.getb("date_conditions", o.date_conditions); o.nested_parens = j.getb("nested_parens", o.nested_parens); o.stop_safe = j.getb("stop_safe", o.stop_safe); o.cond_well_bias = j.getd("cond_well_bias", 0.0); o.min_wells = static_cast<int>(j.geti("min_wells", 1)); o.reparent_groups = j.getb("reparent_groups", false); o.late_edits = j.getb("late_edits", false); o.geo_kws = j.getb("geo_kws", false); o.weltarg_safe = j.getb("weltarg_safe", false);   // absent in replay files written before the knob existed
+    o.rptonly = j.getb("rptonly", false); o.sumthin = j.getb("sumthin", false); o.date_conditions = j.getb("date_conditions", o.date_conditions); o.nested_parens = j.getb("nested_parens", o.nested_parens); o.stop_safe = j.getb("stop_safe", o.stop_safe); o.cond_well_bias = j.getd("cond_well_bias", 0.0); o.min_wells = static_cast<int>(j.geti("min_wells", 1)); o.reparent_groups = j.getb("reparent_groups", false); o.late_edits = j.getb("late_edits", false); o.geo_kws = j.getb("geo_kws", false); o.udq_unary_minus = j.getb("udq_unary_minus", false); o.weltarg_safe = j.getb("weltarg_safe", false);   // absent in replay files written before the knob existed
     return o;
 }
 
@@ -270,8 +270,10 @@ struct Gen {
             int id = static_cast<int>(m.udq_names.size()) + 1;
             double u = rng.unit();
             if (u < 0.35) { std::string nm = "FU_A" + std::to_string(id); k.recs.push_back({"ASSIGN", nm, num(std::round(rng.real(1, 1500)))}); m.udq_names.push_back(nm); }
-            else if (u < 0.65) { std::string nm = "FU_D" + std::to_string(id); static const char* e[] = {"FOPT * 2", "FOPT + FWPT", "FWPT / 3 + 1", "(FOPT + 10) * 0.5", "FOPR * 0.5"}; std::string ex = e[rng.below(o.restart_safe_conditions ? 4 : 5)]; std::vector<std::string> r = {"DEFINE", nm}; std::istringstream is(ex); std::string t; while (is >> t) r.push_back(t); k.recs.push_back(r); m.udq_names.push_back(nm); }
-            else if (u < 0.85) { std::string nm = "WU_D" + std::to_string(id); static const char* e[] = {"WOPT * 2", "WOPT + WWPT", "WOPT 'P*' + 1"}; std::string ex = e[rng.below(3)]; std::vector<std::string> r = {"DEFINE", nm}; std::istringstream is(ex); std::string t; while (is >> t) r.push_back(t); k.recs.push_back(r); m.udq_names.push_back(nm); }
+            else if (u < 0.65) { std::string nm = "FU_D" + std::to_string(id); static const char* e[] = {"FOPT * 2", "FOPT + FWPT", "FWPT / 3 + 1", "(FOPT + 10) * 0.5", "FOPR * 0.5"}; std::string ex = e[rng.below(o.restart_safe_conditions ? 4 : 5)];
+                if (o.udq_unary_minus && rng.chance(0.4)) { static const char* en[] = {"-FOPT * 2", "-(FOPT + 10)", "5 - -FWPT"}; ex = en[rng.below(3)]; } std::vector<std::string> r = {"DEFINE", nm}; std::istringstream is(ex); std::string t; while (is >> t) r.push_back(t); k.recs.push_back(r); m.udq_names.push_back(nm); }
+            else if (u < 0.85) { std::string nm = "WU_D" + std::to_string(id); static const char* e[] = {"WOPT * 2", "WOPT + WWPT", "WOPT 'P*' + 1"}; std::string ex = e[rng.below(3)];
+                if (o.udq_unary_minus && rng.chance(0.4)) { static const char* en[] = {"-WOPT", "-(WOPT + WWPT)"}; ex = en[rng.below(2)]; } std::vector<std::string> r = {"DEFINE", nm}; std::istringstream is(ex); std::string t; while (is >> t) r.push_back(t); k.recs.push_back(r); m.udq_names.push_back(nm); }
             else { std::string nm = "WU_A" + std::to_string(id); k.recs.push_back({"ASSIGN", nm, num(std::round(rng.real(1, 900)))}); m.udq_names.push_back(nm); }
         }
         return k;
@@ -395,6 +397,7 @@ struct Gen {
                     else if (v < 0.55 && w.msw) { k.name = "WSEGVALV"; const int nseg = w.k2 - w.k1 + 2; const int nrec = static_cast<int>(rng.range(1, 2));
                         for (int r2 = 0; r2 < nrec; ++r2) k.recs.push_back({q(w.name), std::to_string(static_cast<int>(rng.range(2, nseg))), num(std::round(rng.real(0.4, 0.95) * 100) / 100), num(0.785 * diam * diam * std::round(rng.real(0.1, 0.9) * 16) / 16)}); }
                     else if (v < 0.75) { k.name = "COMPDAT"; const int kk = static_cast<int>(rng.range(w.k1, w.k2)); k.recs.push_back({q(w.name), std::to_string(w.i), std::to_string(w.j), std::to_string(kk), std::to_string(kk), q(rng.chance(0.8) ? "OPEN" : "SHUT"), "2*", num(diam * (rng.chance(0.5) ? 1.0 : 1.5)), "1*", num(std::round(rng.real(0, 4) * 4) / 4)}); }
+                    else if (v < 0.82 && w.kind != "OPROD") { WellDef sw = w; sw.history = false; sw.kind = "OPROD"; k = wcon(sw, "OPEN"); }     // an injector becomes a producer (not the other way round: WELTARG ORAT/LRAT records elsewhere in the deck name producers)
                     else if (v < 0.88 && w.kind == "OPROD") { k.name = "WECON"; k.recs.push_back({q(w.name), num(std::round(rng.real(1, 50))), "1*", num(std::round(rng.real(0.5, 0.95) * 100) / 100), "2*", q("WELL")}); }
                     else { k.name = "WTEST"; k.recs.push_back({q(w.name), num(static_cast<double>(rng.range(1, 30))), q("PE")}); }
                 }
